@@ -263,6 +263,36 @@ func genSQLBatch(r *Rng, g *EvGen) []*mocrelay.Event {
 	return evs
 }
 
+// sqlHiddenNewest scripts: the newest version of an address is deleted BY ID (it stays stored, hidden), optionally the
+// database is closed and reopened, then an older (or equally old) version of the address arrives.  The hidden row
+// still decides "newest wins": the late-comer must not become visible, whether or not there was a reopen.
+func sqlHiddenNewest(r *Rng, g *EvGen, d *sqlDB, file bool) int {
+	v2 := g.Event()
+	v2.Kind = pick(r, []int64{0, 3, 10002, 30023})
+	v2.Tags = g.tags(v2.Kind)
+	v2.CreatedAt = int64(r.Range(5, 12))
+	g.nextID++
+	del := &mocrelay.Event{ID: eventID(g.nextID), Pubkey: v2.Pubkey, CreatedAt: int64(r.Range(1, 12)), Kind: 5, Content: "del",
+		Sig: sig128(g.nextID), Tags: []mocrelay.Tag{{"e", v2.ID}}}
+	g.made = append(g.made, del)
+	v1 := g.Event()
+	v1.Kind, v1.Pubkey, v1.Tags = v2.Kind, v2.Pubkey, v2.Tags
+	v1.CreatedAt = v2.CreatedAt - int64(r.Range(0, 2))
+	if r.P(50) {
+		d.batch([]*mocrelay.Event{v2}, 0)
+		d.batch([]*mocrelay.Event{del}, 0)
+	} else {
+		d.batch([]*mocrelay.Event{v2, del}, 0)
+	}
+	if file && r.P(60) {
+		d.reopen()
+	}
+	d.batch([]*mocrelay.Event{v1}, 0)
+	d.query([]*mocrelay.ReqFilter{{Authors: []string{v2.Pubkey}, Kinds: []int64{v2.Kind}}})
+	d.query([]*mocrelay.ReqFilter{{}})
+	return 5
+}
+
 func genSQLFilters(r *Rng, g *EvGen) []*mocrelay.ReqFilter {
 	switch {
 	case r.P(8):
@@ -295,6 +325,9 @@ func init() {
 				g := &EvGen{r: r}
 				d := newSQLDB(false)
 				emit(M{"op": "reset"})
+				if r.P(15) {
+					done += sqlHiddenNewest(r, g, d, false)
+				}
 				for b := r.Range(3, 10); b > 0; b-- {
 					d.batch(genSQLBatch(r, g), 0)
 					done++
@@ -316,6 +349,9 @@ func init() {
 				g := &EvGen{r: r}
 				d := newSQLDB(true)
 				emit(M{"op": "reset"})
+				if r.P(25) {
+					done += sqlHiddenNewest(r, g, d, true)
+				}
 				for b := r.Range(3, 8); b > 0; b-- {
 					evs := genSQLBatch(r, g)
 					big := r.P(5) || (first && b == 2)
